@@ -23,6 +23,17 @@ def run(tier, t0):
              or 'insert_win_stack_info' in f.path or f.path.startswith('breakpad_symbols::sym_file::parser::stack_win')]
     from . import fpo
     fpo.fpo_formulas(res, prog, 'C07.6')
+    # C07.8 literals are read with i64 precision in both evaluators (documented), then squashed into the evaluator's width
+    res.rule('C07.8', 0, floor=2, note='decimal literals are parsed as i64 in eval_win_expr and eval_cfi_expr')
+    for nm in ('eval_win_expr', 'eval_cfi_expr'):
+        fx = c.fn(W + nm)
+        if fx is None:
+            res.error('C07.8', '%s not found' % nm)
+            continue
+        tys = [(t.get('targs') or ['?'])[0] for b, t in fx.calls() if fx.callee(t) == 'core::num::from_str']
+        res.rule('C07.8', 1)
+        if tys != ['i64']:
+            res.violation('C07.8', 'C07.8|%s' % nm, fx, fx.line, 'literals of %s are parsed as %s, not i64: a program with a literal outside that type fails as a whole (`4294967295` is rejected by i32)' % (nm, tys))
     # the FPO return-address skip and .cbParams/.cbCalleeParams rest on what the real walker reports about the grand-callee
     from .C04 import cfi_walker
     cfi_walker(res, prog, prog.crate('minidump_unwind'), 'C07.7')
